@@ -22,7 +22,7 @@ ID = 'C16'
 LEVEL = 'exploration'
 RULE = ('each run = generated directory graph (<= 6 directories, 0-4 directory symlinks incl. loops of every '
         'shape, file symlink loops, IGNORE/hidden placement, a second device mounted via symlink or as a '
-        'sub-directory) + operations verify / update / create / unregistered-Manifest scan through library '
+        'sub-directory, empty unregistered sub-Manifests in link-free graphs) + operations verify / update / create / unregistered-Manifest scan through library '
         'and CLI, one-file-system mode on/off, under a per-operation step cap; non-trivial = the graph has '
         'a directory symlink or a device boundary; distinct = distinct seam event-log digest')
 PLAN = {'quick': {'n': 12000, 'budget_s': 90, 'block': 40},
@@ -79,6 +79,15 @@ def generate(rng, tier, idx):
             t = '.'
         links.append(p)
         tree.append({'p': 'tree/' + p, 'k': 'symlink', 't': t})
+    # unregistered sub-Manifests (empty files named Manifest no MANIFEST entry refers to): the updater loads them
+    # during its scan, i.e. between the device/loop checks of one walk.  Only in graphs without internal directory
+    # links (a Manifest reachable under two paths is another subject)
+    unreg = []
+    internal = [t_ for t_ in tree if t_.get('k') == 'symlink' and not t_['t'].endswith('mnt1') and not t_['t'].startswith('l') and not t_['t'].startswith('.hl')]
+    if dirs and not internal and rng.random() < 0.4:
+        for d in rng.sample(dirs, min(len(dirs), rng.choice([1, 1, 2]))):
+            unreg.append(d)
+            tree.append({'p': 'tree/' + d + '/Manifest', 'k': 'file', 'c': ''})
     mounts = {}
     if ext or rng.random() < 0.15:
         tree.append({'p': 'mnt1', 'k': 'dir'})
@@ -105,7 +114,7 @@ def generate(rng, tier, idx):
         ops.append({'op': rng.choice(['verify', 'verify', 'update', 'create', 'unregistered', 'cli-verify', 'cli-update']),
                     'xdev': rng.random() < 0.6})
     return {'prop': ID, 'order_key': '%016x' % rng.getrandbits(64), 'tree': tree, 'mounts': mounts,
-            'ignores': ignores, 'ops': ops}
+            'ignores': ignores, 'ops': ops, 'unreg': unreg}
 
 
 def dev_of(mounts, base, realpath, default):
@@ -156,7 +165,7 @@ def walk_graph(root, base, ignores, mounts, default_dev, top='Manifest'):
                 res['devs'][v] = dev
                 stack.append((v, anc + [ident]))
             else:
-                if v == top:
+                if v == top or n == 'Manifest':
                     continue
                 res['files'][v] = real
                 res['devs'][v] = dev
@@ -203,6 +212,16 @@ def execute(sc):
                 foreign = [v for v in foreign if v == '' or v in g['dirs']]
             has_loop = bool(g['loops'])
             # (re)write the Manifest: earlier update ops may have rewritten it
+            for ud in sc.get('unreg', []):
+                # present (and empty) for the operations that scan for unregistered Manifests, absent for verification
+                # (where an unlisted file would simply be stray)
+                if os.path.isdir(os.path.join(root, ud)):
+                    up = os.path.join(root, ud, 'Manifest')
+                    if kind in ('update', 'cli-update', 'create', 'unregistered'):
+                        with _o['open'](up, 'w') as f:
+                            pass
+                    elif os.path.lexists(up):
+                        _o['os.unlink'](up)
             if kind == 'create':
                 if os.path.lexists(top):
                     _o['os.unlink'](top)
@@ -231,7 +250,8 @@ def execute(sc):
                         return True
                     r = call(cre)
                 elif kind == 'unregistered':
-                    r = call(lambda: ManifestRecursiveLoader(top, **kw).load_unregistered_manifests('') == [])
+                    want_unreg = sorted(ud + '/Manifest' for ud in sc.get('unreg', []) if ud in g['dirs'])
+                    r = call(lambda: sorted(ManifestRecursiveLoader(top, **kw).load_unregistered_manifests('')) == want_unreg)
                 elif kind == 'cli-verify':
                     r = cli_as_call(run_cli(['verify'] + ([] if xdev else ['-x']) + [root]))
                 else:
@@ -283,8 +303,17 @@ def execute(sc):
                 # files behind followed links are recorded like any others
                 with _o['open'](top, 'r', encoding='utf8') as f:
                     got = G.parse(f.read())
-                paths = sorted(e['path'] for e in got if e['tag'] == 'DATA')
+                paths = [e['path'] for e in got if e['tag'] == 'DATA']
+                umf = []
+                for ud in sc.get('unreg', []):
+                    if ud in g['dirs']:
+                        umf.append(ud + '/Manifest')
+                        with _o['open'](os.path.join(root, ud, 'Manifest'), 'r', encoding='utf8') as f:
+                            paths += [pjoin(ud, e['path']) for e in G.parse(f.read()) if e['tag'] == 'DATA']
+                paths = sorted(set(paths))
                 want = sorted(g['files'])
+                if umf:
+                    counters['updates_with_unregistered_manifest'] = counters.get('updates_with_unregistered_manifest', 0) + 1
                 if paths != want:
                     violations.append(viol('walk.recorded-set', '%s: recorded %r, reachable files %r' % (what, paths, want), sig=kind))
             counters['followed'] = counters.get('followed', 0) + 1
